@@ -273,6 +273,13 @@ def write_term_rule(ck, facts):
                 strs.add(s[2][1][1]["def"])
     if strs != {"sophia_api::ns::xsd::string"}:
         ck.bad("R3.2", key + "#xsd-string", "datatype is compared with %s, expected xsd:string only" % sorted(strs), fn.loc)
+    # the equality that decides whether the datatype is written is NsTerm::eq: its shape (rule R2.3 of C02) matters here
+    import c02
+    ne = [f for f in facts.fns.values() if f.name == "<ns::_term::NsTerm<'a> as term::Term>::eq"]
+    if len(ne) == 1:
+        c02.nsterm_eq_rule(ck, facts, ne[0])
+    else:
+        ck.bad("R2.3", "R2.3@NsTerm::eq#anchor", "anchor-missing: NsTerm::eq (%d)" % len(ne))
     # write_triple
     fns = facts.find_fns(crate="sophia_turtle", name_re=r"serializer::nt::write_triple$")
     if len(fns) == 1:
